@@ -53,6 +53,7 @@ static TAP_ON: std::sync::atomic::AtomicBool = std::sync::atomic::AtomicBool::ne
 static SYNCLOG: Mutex<Vec<(String, String)>> = Mutex::new(Vec::new());
 /// SIGKILL this process when sync point `.0` arrives with a frame whose topic ends with `.1`
 static KILL_AT: Mutex<Option<(String, String)>> = Mutex::new(None);
+static RACE_STORE: Mutex<Option<Store>> = Mutex::new(None);
 
 fn on_serve_point(p: &xs::verif::Point) {
     let Some(f) = p.frame else { return };
@@ -76,6 +77,14 @@ fn on_serve_point(p: &xs::verif::Point) {
             .map(|i| id_hex(&i))
             .unwrap_or_default();
         SYNCLOG.lock().unwrap().push(("registered.broadcast".to_string(), hid));
+        // a client that appends the instant `.registered` is visible (C16): it races the handler's
+        // start-up for the append lock
+        if let Some(st) = RACE_STORE.lock().unwrap().as_ref() {
+            let (st, ctx) = (st.clone(), f.context_id);
+            std::thread::spawn(move || {
+                let _ = st.append(xs::store::Frame::builder("ping", ctx).build());
+            });
+        }
     }
 }
 
@@ -257,6 +266,9 @@ async fn exec(store: &Store, gate: &Arc<Gate>, kind: &str, op: &Value) -> Value 
             // what `xs serve` starts (main::serve), minus the trace logger: the three serve
             // loops, each on its own engine clone
             let engine = xs::nu::Engine::new().unwrap();
+            if op["race_ping"].as_bool().unwrap_or(false) {
+                *RACE_STORE.lock().unwrap() = Some(store.clone());
+            }
             if op["tap"].as_bool().unwrap_or(true) {
                 let st = store.clone();
                 let mut rx = st.read(ReadOptions::builder().follow(FollowOption::On).build()).await;
